@@ -25,7 +25,7 @@ pub trait GroupApi {
     fn g_remove(&mut self, k: Self::Key) -> bool;
     fn g_reserve(&mut self, n: usize);
     fn g_insert(&mut self, m: Self::Member) -> Self::Key;
-    fn g_extend(&mut self, ms: Vec<Self::Member>);
+    fn g_extend(&mut self, ms: Vec<Self::Member>, nohint: bool);
     fn g_poll(&mut self, cx: &mut Context<'_>) -> Poll<Option<(Option<Self::Key>, Out)>>;
 }
 
@@ -56,9 +56,16 @@ macro_rules! group_api {
             fn g_insert(&mut self, m: $member) -> $key {
                 self.insert(m)
             }
-            fn g_extend(&mut self, $ms: Vec<$member>) {
+            fn g_extend(&mut self, $ms: Vec<$member>, nohint: bool) {
                 let $g = self;
-                $extend
+                if nohint {
+                    // an iterator whose size_hint is (0, None): nothing can be reserved up front
+                    let mut it = $ms.into_iter();
+                    let $ms = core::iter::from_fn(move || it.next());
+                    $extend
+                } else {
+                    $extend
+                }
             }
             fn g_poll(&mut self, $cx: &mut Context<'_>) -> Poll<Option<(Option<$key>, Out)>> {
                 let $s = Pin::new(self);
@@ -96,6 +103,8 @@ pub struct GroupSubject<G: GroupApi> {
     rm: bool,
     rs: bool,
     ext: bool,
+    /// extend / from_iter are fed an iterator without a size hint (ext=2)
+    nohint: bool,
     /// live members whose key the harness does not know (extend / from_iter)
     specs: Vec<Spec>,
     mk: fn(u32) -> G::Member,
@@ -249,7 +258,8 @@ impl<G: GroupApi> Subject for GroupSubject<G> {
                 let (a, ma) = self.new_member(true);
                 let (b, mb) = self.new_member(true);
                 with(|w| w.ev(Ev::Op(OP_EXTEND as u8, a, b)));
-                self.g.as_mut().unwrap().g_extend(vec![ma, mb]);
+                let nohint = self.nohint;
+                self.g.as_mut().unwrap().g_extend(vec![ma, mb], nohint);
             }
             3..=5 => {
                 let n = [0usize, 1, 3][(op - OP_RESERVE0) as usize];
@@ -328,7 +338,7 @@ fn setup<G: GroupApi + 'static>(item: &PItem, g: G, is_stream: bool, mk: fn(u32)
     let home = if is_stream { 12 } else { 11 };
     let mm = item.u("mm", 3);
     let specs: Vec<Spec> = (0..mm.max(8)).map(|i| spec_for(item, i)).collect();
-    let mut s = GroupSubject { g: Some(g), home, is_stream, keys: Vec::new(), made: iter_members, max_members: mm, rm: item.u("rm", 1) != 0, rs: item.u("rs", 0) != 0, ext: item.u("ext", 0) != 0, specs, mk, nam: item.u("nam", 0), na: item.u("na", 1) as u16 };
+    let mut s = GroupSubject { g: Some(g), home, is_stream, keys: Vec::new(), made: iter_members, max_members: mm, rm: item.u("rm", 1) != 0, rs: item.u("rs", 0) != 0, ext: item.u("ext", 0) != 0, nohint: item.u("ext", 0) == 2, specs, mk, nam: item.u("nam", 0), na: item.u("na", 1) as u16 };
     if let Some((id, m)) = nested {
         // one member is itself a combinator (one level of nesting)
         s.insert_member(id, m);
@@ -388,7 +398,12 @@ pub fn runner(item: &PItem) {
                     mk_fut(id)
                 })
                 .collect();
-            ms.into_iter().collect()
+            if item.u("ext", 0) == 2 {
+                let mut it = ms.into_iter();
+                core::iter::from_fn(move || it.next()).collect()
+            } else {
+                ms.into_iter().collect()
+            }
         } else if cap == 0 {
             FutureGroup::new()
         } else {
@@ -412,7 +427,12 @@ pub fn runner(item: &PItem) {
                     mk_str(id)
                 })
                 .collect();
-            ms.into_iter().collect()
+            if item.u("ext", 0) == 2 {
+                let mut it = ms.into_iter();
+                core::iter::from_fn(move || it.next()).collect()
+            } else {
+                ms.into_iter().collect()
+            }
         } else if cap == 0 {
             StreamGroup::new()
         } else {
